@@ -7,6 +7,8 @@ Driver for C29 (one request per line, one reply per line):
   chal of the comma list; reply one letter per chal: `a` accept, `r` reject, `p` panic.
 * `pverify A N STEP SECS KEY CHALS` — token built through `TryFrom<ProtoTotp>` with `digits = N`
   (`u8`); `err` when the conversion fails.
+* `dverify A N STEP SECS KEY CHALS` — token built through `TryFrom<DbTotpV1>` with `digits = N`
+  (`u8`, or `none` for an absent field); `err` when the conversion fails.
 * `code A D STEP SECS KEY` — `do_totp_duration_from_epoch`: `ok N`, `err E`, `panic`.
 * `rfc A NDIGITS STEP SECS KEY` — the specification: `Rfc.totp` at SECS and at SECS - STEP.
 * `hmac A KEY COUNTER` — `TotpAlgo::digest` as hex.
@@ -32,6 +34,13 @@ def key? (s : String) : Option (List Nat) := if s == "-" then some [] else hexBy
 def algo? (s : String) : Option Algo :=
   if s == "1" then some .Sha1 else if s == "256" then some .Sha256
   else if s == "512" then some .Sha512 else none
+
+def dbAlgo? (s : String) : Option DbAlgo :=
+  if s == "1" then some .S1 else if s == "256" then some .S256
+  else if s == "512" then some .S512 else none
+
+def optNat? (s : String) : Option (Option Nat) :=
+  if s == "none" then some none else (nat? s).map some
 
 def digits? (s : String) : Option Digits :=
   if s == "6" then some .Six else if s == "8" then some .Eight else none
@@ -64,6 +73,13 @@ def handle (line : String) : String :=
     match algo? a, nat? n, nat? step, nat? secs, key? key, natList? chals with
     | some a, some n, some step, some secs, some key, some chals =>
       match ofProto key a step n with
+      | none => "err"
+      | some t => showVerdicts (verifyMany t chals secs)
+    | _, _, _, _, _, _ => "bad-op"
+  | ["dverify", a, n, step, secs, key, chals] =>
+    match dbAlgo? a, optNat? n, nat? step, nat? secs, key? key, natList? chals with
+    | some a, some n, some step, some secs, some key, some chals =>
+      match ofDb key a step n with
       | none => "err"
       | some t => showVerdicts (verifyMany t chals secs)
     | _, _, _, _, _, _ => "bad-op"
